@@ -56,7 +56,8 @@ def rand_tags(rng, strings_only):
             elif r < 0.84:
                 t.append(rng.choice([True, False, None]))
             elif r < 0.9:
-                t.append(rng.choice([1.5, 0.1, 1e20]))
+                # 1 / 1.0 / true, 0 / 0.0 / -0.0 / false compare equal in Python but are different JSON texts
+                t.append(rng.choice([1.5, 0.1, 1e20, 1.0, 0.0, -0.0, 1.0, 0.0, 2.0, 1e2]))
             else:
                 # objects keep their key order: the id is the hash of the serialisation the client made
                 t.append(rng.choice([["n"], [], ["a", ["b"]], {"k": "v"}, {"url": "u", "m": "image/png"}, {"b": 1, "a": {"z": 1, "y": [2]}},
@@ -85,7 +86,9 @@ def frame_case(report, drv, rng, loop):
     # oracle 1: Python's JSON
     try:
         j = json.loads(frame)
-        ok = isinstance(j, list) and len(j) == 3 and j[0] == "EVENT" and j[1] == sid and j[2] == json.loads(json.dumps(ev))
+        # compared as JSON text: Python's == does not tell true from 1 from 1.0, JSON does
+        ok = isinstance(j, list) and len(j) == 3 and j[0] == "EVENT" and j[1] == sid and isinstance(j[2], dict) \
+            and {k: norm(v) for k, v in j[2].items()} == {k: norm(v) for k, v in ev.items()}
     except Exception as e:
         ok = False
         j = "not JSON: %s" % e
